@@ -25,6 +25,7 @@ EXPLANATION = (
     "candidate that defines it (no first-match selection; = R13.4); R02.7 positions: the write-column list is ordered by the recorded position alone, and a list read by position inside one iteration of a loop is rebuilt in that iteration; R02.6 qualifier and column of a reference are read from the parse tree, not by splitting its text at '.' (= R16.5). Does not decide: positional wiring across "
     "set-operation branches as values, qualifier resolution beyond precedence, naming of un-aliased expressions."
     ' R02.8 (= R06.4) column identity compares the owner object. The scope-map clauses also require every qualifier resolution (to_source_columns) to use the map of the one builder.'
+    ' R02.13 (= R05.3) per-query collections of an extractor are not carried to the next statement; R02.14 (= R16.2) an alias is normalised once; R02.15 (= R12.1) session entries of a failed run are removed on every exit.'
 )
 RULE_TEXT = "one obligation per type-table member demanded by the grammar, per scope-map operand, per container used in the per-branch loop, per precedence site"
 
@@ -278,6 +279,9 @@ def rules(ctx: Ctx) -> None:
     # ---- R02.13 (= R05.3): the select items, tables and set-operation barriers an extractor collects belong to one query - an extractor kept across
     # statements pairs a later statement's targets with an earlier statement's items
     _imp02(ctx, "C05", {"R05.3": "R02.13"}, key_filter=lambda o: o.key.startswith(("analyzer-state", "per-query-object")))
+    # ---- R02.15 (= R12.1): the columns a statement's target is given by name come from this run's statements and the provider's source - session entries
+    # of a run that failed part-way are removed on every exit of the session, or the next run names an INSERT's targets after a stale table
+    _imp02(ctx, "C12", {"R12.1": "R02.15"})
     # ---- R02.14 (= R16.2 at alias sites): an alias is normalised once - normalised twice, a quoted mixed-case CTE / derived-table name no longer matches
     # the qualifier of its columns and they are attributed to a made-up table
     _imp02(ctx, "C16", {"R16.2": "R02.14"}, key_filter=lambda o: o.key.startswith("SubQuery(alias)"))
